@@ -4,8 +4,13 @@ PROPS = ['C01', 'C02', 'C03', 'C04', 'C05', 'C06', 'C07', 'C08', 'C09', 'C10',
          'C11', 'C12', 'C13', 'C14', 'C15', 'C16', 'C17', 'C18']
 
 _Q = dict(runs=9600, batch=150)
-_T = dict(runs=240000, batch=500)
+_T = dict(runs=96000, batch=500)
 BUDGET = {p: dict(quick=dict(_Q), thorough=dict(_T)) for p in PROPS}
+# slower profiles (finalizer census, ply table generation, disk faults)
+for _p, _q, _t in [('C08', 9600, 48000), ('C16', 4800, 32000), ('C01', 9600, 64000), ('C02', 9600, 64000),
+                   ('C09', 9600, 64000), ('C17', 9600, 64000)]:
+    BUDGET[_p]['quick']['runs'] = _q
+    BUDGET[_p]['thorough']['runs'] = _t
 
 REAL_VS_STUB = dict(
     real=['dd.bdd', 'dd.autoref', 'dd._copy', 'dd._parser', 'dd.mdd', 'dd.dddmp', 'dd._utils', 'dd._abc',
